@@ -562,6 +562,30 @@ impl Parser {
                         if !self.peek(&TokenEnum::RightBrace) && !self.peek(&TokenEnum::Comma) {
                             self.expect(&TokenEnum::Semicolon)?;
                         }
+                        // The place is used twice below (`x[i] op= v` becomes `x[i] = x[i] op v`), but
+                        // each of its index exprs must be evaluated only once, so it is bound to a
+                        // temporary first ('{' cannot occur in a user-defined identifier):
+                        let mut accessors = accessors;
+                        let mut index_bindings = vec![];
+                        for (i, (access, _)) in accessors.iter_mut().enumerate() {
+                            if let Accessor::ArrayAccess { index, .. } = access {
+                                if !matches!(index.inner, ExprEnum::NumUnsigned(_, _)) {
+                                    let tmp = format!("{{index-{i}}}");
+                                    let index_meta = index.meta;
+                                    let tmp_expr =
+                                        Expr::untyped(ExprEnum::Identifier(tmp.clone()), index_meta);
+                                    let index_expr = std::mem::replace(index, tmp_expr);
+                                    index_bindings.push(Stmt::new(
+                                        StmtEnum::Let(
+                                            Pattern::untyped(PatternEnum::Identifier(tmp), index_meta),
+                                            Some(Type::Unsigned(UnsignedNumType::Usize)),
+                                            index_expr,
+                                        ),
+                                        index_meta,
+                                    ));
+                                }
+                            }
+                        }
                         let mut target = Expr::untyped(
                             ExprEnum::Identifier(identifier.clone()),
                             identifier_meta,
@@ -595,10 +619,17 @@ impl Parser {
                             ExprEnum::Op(op, Box::new(target), Box::new(value)),
                             meta,
                         );
-                        Stmt::new(
+                        let assignment = Stmt::new(
                             StmtEnum::VarAssign(identifier.clone(), accessors, binary_op),
                             meta,
-                        )
+                        );
+                        if index_bindings.is_empty() {
+                            assignment
+                        } else {
+                            index_bindings.push(assignment);
+                            let block = Expr::untyped(ExprEnum::Block(index_bindings), meta);
+                            Stmt::new(StmtEnum::Expr(block), meta)
+                        }
                     } else {
                         if !self.peek(&TokenEnum::RightBrace) && !self.peek(&TokenEnum::Comma) {
                             self.expect(&TokenEnum::Semicolon)?;
